@@ -163,6 +163,9 @@ func (s *State) Protected(sc Scope) map[string]bool {
 			visitACL(acl, prot)
 		}
 	}
+	for _, n := range s.Gen.protectedACLs(s, sc) {
+		visitACL(n, prot)
+	}
 	return prot
 }
 
@@ -211,5 +214,6 @@ func (s *State) FrameText(sc Scope) string {
 		out = append(out, "interface "+i.HW+" nameif "+i.Nameif+" "+strings.Join(i.Extra, ";"))
 	}
 	out = append(out, s.Opaque...)
+	out = append(out, s.Gen.frame(s, sc)...)
 	return strings.Join(out, "\n")
 }
